@@ -147,21 +147,31 @@ RRFor(tp, g) == {rr \in RR : /\ rr[1] = "extent" => \E p \in VerticesOf(g) : Amb
                              /\ rr[2] = "extent" => \E p \in VerticesOf(g) : Ambiguous(FAxis(tp), p[2])}
 Merge(S) == IF S = {"in"} THEN "in" ELSE IF S = {"out"} THEN "out" ELSE "either"
 Status(tp, g, at, cell) == Merge({StatusR(tp, rr, g, at, cell) : rr \in RRFor(tp, g)})
-\* the same as a table [cell |-> status], computed once per geometry (TLCEval forces the evaluation)
-StatusTab(tp, g, at) ==
-    LET rrs == RRFor(tp, g)
-        per == [rr \in rrs |-> LET mp == TLCEval(MParts(tp, rr, g))
-                               IN  TLCEval([cell \in CellsOf(tp) |-> StatusM(mp, Areal(g), at, cell)])]
-    IN  TLCEval([cell \in CellsOf(tp) |-> Merge({per[rr][cell] : rr \in rrs})])
 
 (***************************************************************************)
 (* Bounding boxes (and time intervals): the statement spells the cells out *)
 (* -- "the bins from the one containing its start (inclusive) to the one   *)
-(* containing its end (exclusive) on each axis".                           *)
+(* containing its end (exclusive) on each axis".  BoxIdx is the mapped box *)
+(* <<bin(start), bin(low), bin(end), bin(high)>>.  MC_Raster!LawBoxIsCentreRule *)
+(* checks that this closed form IS the centre rule on the mapped rectangle *)
+(* (and LawBoxTouched that BoxTouches is the generic Touched).             *)
 (***************************************************************************)
-BoxCells(tp, rr, b) ==
-    {cell \in CellsOf(tp) : /\ Bin(rr[1], TAxis(tp), b[1]) <= cell[1] /\ cell[1] < Bin(rr[1], TAxis(tp), b[3])
-                            /\ Bin(rr[2], FAxis(tp), b[2]) <= cell[2] /\ cell[2] < Bin(rr[2], FAxis(tp), b[4])}
+BoxIdx(tp, rr, b) == <<Bin(rr[1], TAxis(tp), b[1]), Bin(rr[2], FAxis(tp), b[2]), Bin(rr[1], TAxis(tp), b[3]), Bin(rr[2], FAxis(tp), b[4])>>
+InIdx(ix, cell) == ix[1] <= cell[1] /\ cell[1] < ix[3] /\ ix[2] <= cell[2] /\ cell[2] < ix[4]
+BoxTouches(ix, cell) == ix[1] <= cell[1] + 1 /\ cell[1] <= ix[3] /\ ix[2] <= cell[2] + 1 /\ cell[2] <= ix[4]
+BoxCells(tp, rr, b) == LET ix == BoxIdx(tp, rr, b) IN {cell \in CellsOf(tp) : InIdx(ix, cell)}
+BoxStatus(ix, at, cell) == IF InIdx(ix, cell) THEN "in" ELSE IF at /\ BoxTouches(ix, cell) THEN "either" ELSE "out"
+
+\* Status as a table [cell |-> status], computed once per geometry and mode (TLCEval forces the evaluation)
+StatusTab(tp, g, at) ==
+    LET rrs == RRFor(tp, g)
+        per == TLCEval([rr \in rrs |->
+                   IF BoxLike(g) THEN LET ix == TLCEval(BoxIdx(tp, rr, BoxOf(g)))
+                                      IN  TLCEval([cell \in CellsOf(tp) |-> BoxStatus(ix, at, cell)])
+                   ELSE LET mp == TLCEval(MParts(tp, rr, g))
+                        IN  TLCEval([cell \in CellsOf(tp) |-> StatusM(mp, Areal(g), at, cell)])])
+    IN  IF Cardinality(rrs) = 1 THEN per[CHOOSE rr \in rrs : TRUE]
+        ELSE TLCEval([cell \in CellsOf(tp) |-> Merge({per[rr][cell] : rr \in rrs})])
 
 (* ---- the call ---- *)
 NG(c) == Len(c.geoms)
@@ -181,12 +191,13 @@ Allowed(c, tab, cell) == AllowedFrom(c, tab, cell, NG(c))
 InAt(c, tab, cell)     == {k \in 1..NG(c) : tab[k][cell] = "in"}
 NotOutAt(c, tab, cell) == {k \in 1..NG(c) : tab[k][cell] # "out"}
 
-\* painting boxes under a choice of reading per geometry: rd \in [1..n -> RR]
-RECURSIVE PaintBoxes(_, _, _, _)
-PaintBoxes(c, rd, cell, k) ==
+\* painting boxes under a choice of reading per geometry: rd \in [1..n -> RR], ixs[k][rr] = BoxIdx of geometry k
+BoxIdxTab(c) == TLCEval([k \in 1..NG(c) |-> TLCEval([rr \in RRFor(c.tpl, c.geoms[k]) |-> BoxIdx(c.tpl, rr, BoxOf(c.geoms[k]))])])
+RECURSIVE PaintBoxes(_, _, _, _, _)
+PaintBoxes(c, ixs, rd, cell, k) ==
     IF k = 0 THEN c.fill
-    ELSE IF cell \in BoxCells(c.tpl, rd[k], BoxOf(c.geoms[k])) THEN Val(c, k)
-    ELSE PaintBoxes(c, rd, cell, k - 1)
+    ELSE IF InIdx(ixs[k][rd[k]], cell) THEN Val(c, k)
+    ELSE PaintBoxes(c, ixs, rd, cell, k - 1)
 
 (***************************************************************************)
 (* Acceptance.  A run is what one call returned:                           *)
@@ -213,7 +224,9 @@ RunHolds(cl, c, r, at, tab) ==
       [] cl = "DimsAndCoordsOfTemplate" -> LenOK(c) => /\ WellShaped(c, r)
                                                        /\ r.tc = Coords(TAxis(tp)) /\ r.fc = Coords(FAxis(tp))
       [] cl = "BoxCellsExact" -> (ok /\ ~at /\ \A k \in 1..NG(c) : BoxLike(c.geoms[k])) =>
-                                    \E rd \in [1..NG(c) -> RR] : \A cell \in CellsOf(tp) : At(r, cell) = PaintBoxes(c, rd, cell, NG(c))
+                                    LET ixs == BoxIdxTab(c) IN
+                                    \E rd \in {f \in [1..NG(c) -> RR] : \A k \in 1..NG(c) : f[k] \in RRFor(tp, c.geoms[k])} :
+                                        \A cell \in CellsOf(tp) : At(r, cell) = PaintBoxes(c, ixs, rd, cell, NG(c))
       [] cl = "CentreRule"      -> ok => \A cell \in CellsOf(tp) : At(r, cell) \in Allowed(c, tab, cell)
       [] cl = "LaterOverwrites" -> ok => \A cell \in CellsOf(tp) :
                                       (InAt(c, tab, cell) # {} /\ Cardinality(NotOutAt(c, tab, cell)) >= 2) =>
